@@ -215,6 +215,8 @@ def const_check(e, kinds, consts):
         return e[1]
     if k == "var":
         return consts[e[1]] if kinds[e[1]] == "int" else None
+    if k == "sel":
+        return None
     subs = [const_check(x, kinds, consts) for x in e[1:] if isinstance(x, tuple)]
     if any(s is None for s in subs):
         return None
@@ -256,7 +258,7 @@ def program_safe(decls):
     kinds, consts = [], []
     try:
         for d in decls:
-            if d[0] == "in":
+            if d[0] in ("in", "source", "bundle"):
                 kinds.append("sig")
                 consts.append(None)
             else:
@@ -279,7 +281,7 @@ def s14_free(decls):
             return True
         if k == "var":
             return kinds[e[1]] == "int"
-        if k == "lit":
+        if k in ("lit", "sel"):
             return False
         return all(is_int(x) for x in e[1:] if isinstance(x, tuple))
 
@@ -297,6 +299,8 @@ def s14_free(decls):
             return True
         if k == "var":
             return kinds[e[1]] == "int"
+        if k == "sel":
+            return False
         return all(all_const(x) for x in e[1:] if isinstance(x, tuple))
 
     def all_const(e):
@@ -305,6 +309,8 @@ def s14_free(decls):
             return True
         if k == "var":
             return kinds[e[1]] == "int"
+        if k == "sel":
+            return False
         return all(all_const(x) for x in e[1:] if isinstance(x, tuple))
 
     def ok(e):
@@ -317,7 +323,7 @@ def s14_free(decls):
             return False
         return all(ok(x) for x in e[1:])
 
-    return all(ok(d[2]) for d in decls if d[0] != "in")
+    return all(ok(d[2]) for d in decls if d[0] not in ("in", "source", "bundle"))
 
 
 def gen_program(seed, **kw):
